@@ -220,7 +220,8 @@ func mutateConfig(cc *eval.Config) {
 }
 
 type c08out struct {
-	Recompile string // non-empty: recompiling the same source on the same config gave another program
+	expr      *eval.Expr // the compiled program (kept to look at it again after later compilations)
+	Recompile string     // non-empty: recompiling the same source on the same config gave another program
 	Err       string
 	Dump      string
 	Abort     bool
@@ -305,6 +306,7 @@ func (rn *c08run) compileStep(cc *eval.Config, host *OpHost, s Step, yield func(
 		return
 	}
 	out.Dump = eval.Dump(e)
+	out.expr = e
 	// "compiling the same source with an equal config, again, yields an
 	// equivalent program": recompile a few times right away; anything inside
 	// Compile that depends on Go map order shows up here within one run
@@ -364,22 +366,38 @@ func (pr propC08) Run(w *World, st *Stats) *Violation {
 		}
 		return nil
 	}
-	// isolated baselines: the same source on a freshly built equal config
+	// isolated baselines: the same source on a freshly built equal config.
+	// Under the race detector they are computed AFTER the concurrent phase: the
+	// first compilations of a fresh process then happen in the tasks themselves,
+	// unordered for the detector, so an unsynchronised lazy initialisation inside
+	// the library is visible (first world of every -race worker, and every
+	// confirmation run).
 	base := make([][]c08out, len(w.Tasks))
 	nCompiles, directives := 0, map[string]bool{}
-	for ti, script := range w.Tasks {
+	for _, script := range w.Tasks {
 		for _, s := range script {
-			if s.Op != "compile" {
-				base[ti] = append(base[ti], c08out{})
-				continue
+			if s.Op == "compile" {
+				nCompiles++
+				directives[s.Arg+"/"+strconv.Itoa(s.Mask)] = true
 			}
-			host := &OpHost{Specs: ops, Pure: engine == "baton"}
-			cc := buildSharedConfig(w, host)
-			base[ti] = append(base[ti], rn.compileStep(cc, host, s, nil, engine == "baton"))
-			st.Evals += int64(1 + len(w.Calls))
-			nCompiles++
-			directives[s.Arg+"/"+strconv.Itoa(s.Mask)] = true
 		}
+	}
+	computeBase := func() {
+		for ti, script := range w.Tasks {
+			for _, s := range script {
+				if s.Op != "compile" {
+					base[ti] = append(base[ti], c08out{})
+					continue
+				}
+				host := &OpHost{Specs: ops, Pure: engine == "baton"}
+				cc := buildSharedConfig(w, host)
+				base[ti] = append(base[ti], rn.compileStep(cc, host, s, nil, engine == "baton"))
+				st.Evals += int64(1 + len(w.Calls))
+			}
+		}
+	}
+	if engine != "baton" {
+		computeBase()
 	}
 	st.T("world %x engine=%s tasks=%d compiles=%d", wh, engine, len(w.Tasks), nCompiles)
 	results := make([][]c08out, len(w.Tasks))
@@ -555,6 +573,7 @@ func (pr propC08) Run(w *World, st *Stats) *Violation {
 		delete(bw.Extra, "sched_seed")
 		w = bw
 		st.Probe("baton_runs")
+		computeBase()
 	}
 	if stepViol != nil {
 		stepViol.World = w
@@ -577,6 +596,13 @@ func (pr propC08) Run(w *World, st *Stats) *Violation {
 			}
 			if base[ti][si].Recompile != "" {
 				return viol(w, "nondeterministic-compile", "task %d step %d (fresh equal config): compiling the same source again gives a different program:\n%s", ti, si, base[ti][si].Recompile)
+			}
+			if o.expr != nil && engine != "baton" {
+				// a program compiled earlier is still the same program after all the
+				// compilations that followed it
+				if d2 := eval.Dump(o.expr); d2 != o.Dump {
+					return viol(w, "earlier-program-changed", "task %d step %d: the program compiled here dumped as %s then; after the later compilations of this world it dumps as %s", ti, si, oneLine(o.Dump), oneLine(d2))
+				}
 			}
 			if d := o.diff(base[ti][si]); d != "" {
 				return viol(w, "differs-from-isolation", "task %d step %d (compile program %d, directive style %s mask %d, %s): %s", ti, si, w.Tasks[ti][si].Expr, w.Tasks[ti][si].Arg, w.Tasks[ti][si].Mask, engine, d)
